@@ -41,6 +41,13 @@ UNITS = [
     U("findLast_char", "String::findLast($constthis|char)", "c_String_findLast_char", ["findLast_char.hit", "findLast_char.miss"],
       loops="contracts/string_findlast.loops.json"),
     U("affix", None, None, ["affix.prefix", "affix.suffix"], funcs=["String::startsWith", "String::endsWith"]),
+    # static C-string scanners (used by Process::Arguments): loop contracts, any string length
+    U("length_cstr", "String::length(ptr_const_char)", "c_String_length", ["length.return"], entry="h_length",
+      srcs=["harness/args.cpp", "contracts/args.c"], replace=[], loops="contracts/args_length.loops.json"),
+    U("find_cstr", "String::find(ptr_const_char|char)", "c_String_find", ["find.hit"], entry="h_find",
+      srcs=["harness/args.cpp", "contracts/args.c"], replace=[], loops="contracts/args_find.loops.json"),
+    U("compare_cstr_n", "String::compare(ptr_const_char|ptr_const_char|unsigned_long_int)", "c_String_compare_n", ["compare.equal"], entry="h_compare",
+      srcs=["harness/args.cpp", "contracts/args.c"], replace=[], loops="contracts/args_compare.loops.json"),
     U("cstr", None, None, ["cstr.attached"], funcs=["String::operator const char*() const"]),
 ]
 TRUSTED = ["cbmc 6.11.0 / goto-instrument DFCC / CaDiCaL", "goto-cc C++ front end; String.hpp member subset (compat rules R2-R4)",
@@ -53,7 +60,7 @@ ASSUMPTIONS = [
     "str[len] == 0 is NOT a representation invariant of String (resize on an empty string leaves the end unterminated; the const char* conversion "
     "repairs lazily): the terminator is proved as postcondition of operator const char*() const",
     "covered members: constructors (default, copy, buffer, capacity), destructor, operator=, clear, attach, resize, reserve, append x3, prepend x2, "
-    "operator const char*() const, ==, !=, find(char), findLast(char), startsWith, endsWith.  NOT covered: substr (goto-cc destroys the by-value return temporary before the caller copies it: spurious use-after-free; harness h_substr kept but not registered), compare, replace, case mapping, trim, token/split/join, libc-based find overloads, "
+    "operator const char*() const, ==, !=, find(char), findLast(char), startsWith, endsWith, and the static scanners length(const char*) (index of the first NUL), find(const char*, char) (first occurrence before the NUL), compare(s1, s2, len) (memory safety only).  NOT covered: substr (goto-cc destroys the by-value return temporary before the caller copies it: spurious use-after-free; harness h_substr kept but not registered), compare, replace, case mapping, trim, token/split/join, libc-based find overloads, "
     "printf/scanf family (variadic libc), toBool/fromBool and the char(&)[N] templates (deleted by compat rule R2)",
     "Atomic::increment/decrement sequentially atomic (seam); thread interleavings of C09 not decided",
 ]
